@@ -59,6 +59,7 @@ func (hs *heightSub) SetHeight(height uint64) {
 		if curr >= height {
 			return
 		}
+		verifYield("heightsub:setheight")
 		if !hs.height.CompareAndSwap(curr, height) {
 			continue
 		}
